@@ -319,38 +319,17 @@ func c15Return(l *effListener, x *Explorer, st *State, ret *ssa.Return, res []Fa
 
 func init() { register("C15", checkC15) }
 
-// checkValidateLoops explores each loop of the batch entry that contains a Validate hook in loop-body mode.
+// checkValidateLoops explores, in loop mode, each loop of the batch entry (or of a helper it calls) that runs Validate.
 func checkValidateLoops(p *Prog, c *Closures, r *Result, rule string, need EffSet) {
 	many := p.FuncByName("DB.InsertOrUpdateMany")
 	if many == nil {
 		r.Report(rule, "DB.InsertOrUpdateMany", "loop", Undecided, "batch entry not found", "", nil, false)
 		return
 	}
-	loops := naturalLoops(many)
-	found := 0
-	for _, lp := range loops {
-		// does the loop body contain (transitively) a Validate hook?
-		has := false
-		for _, b := range lp.blocks {
-			for _, in := range b.Instrs {
-				if staticEffects(p, in).Has(EHookV) {
-					has = true
-				}
-				if ci, ok := in.(ssa.CallInstruction); ok {
-					if f := ci.Common().StaticCallee(); f != nil && inSod(p, f) && c.Of(f).Has(EHookV) {
-						has = true
-					}
-				}
-			}
-		}
-		if !has {
-			continue
-		}
-		found++
-		fn := FuncName(many)
-		construct := fmt.Sprintf("validating loop #%d", found)
-		for _, val := range configVals {
-			val := val
+	fn := FuncName(many)
+	found := exploreLoops(p, c, r, many, func(lp natLoop, cl EffSet) bool { return cl.Has(EHookV) }, configVals, need.Union(effs(EHookV, EErrInvalid, EOkValid)).Union(okBits),
+		func(lp natLoop, idx int, val Valuation) *effListener {
+			construct := fmt.Sprintf("validating loop #%d", idx)
 			l := &effListener{p: p, r: r, root: many, val: val}
 			l.onEnd = func(l *effListener, x *Explorer, st *State, reason string) {
 				if reason != "backedge" {
@@ -364,8 +343,8 @@ func checkValidateLoops(p *Prog, c *Closures, r *Result, rule string, need EffSe
 				}
 			}
 			l.onReturn = func(l *effListener, x *Explorer, st *State, ret *ssa.Return, res []Fact) {
-				// leaving the function from inside the loop after a failed Validate: must carry ErrInvalidObject
-				if st.iter.Has(EHookV) && !st.iter.Has(EOkValid) {
+				// leaving the entry from inside the loop after a failed Validate: must carry ErrInvalidObject
+				if st.trackIter && st.iter.Has(EHookV) && !st.iter.Has(EOkValid) {
 					if st.iter.Has(EErrInvalid) {
 						l.ok("C15.R3", fn, "failed Validate return (batch)", p.Pos(ret.Pos()))
 					} else {
@@ -373,21 +352,10 @@ func checkValidateLoops(p *Prog, c *Closures, r *Result, rule string, need EffSe
 					}
 				}
 			}
-			x := NewExplorer(p, c, many, val, l)
-			x.LoopFn, x.LoopHeader = many, lp.header
-			x.LoopBlocks = map[*ssa.BasicBlock]bool{}
-			for _, b := range lp.blocks {
-				x.LoopBlocks[b] = true
-			}
-			x.Mask = need.Union(effs(EHookV, EErrInvalid, EOkValid)).Union(okBits)
-			x.Run()
-			for _, u := range x.Undecided {
-				r.Report("ENGINE", fn, u, Undecided, u, "", nil, false)
-			}
-		}
-	}
+			return l
+		}, nil)
 	if found == 0 {
-		r.Report(rule, FuncName(many), "validating loop", Violated, "the batch entry has no loop that runs Validate per element", p.Pos(many.Pos()), nil, true)
+		r.Report(rule, fn, "validating loop", Violated, "the batch entry has no loop that runs Validate per element", p.Pos(many.Pos()), nil, true)
 	}
 }
 
